@@ -208,7 +208,7 @@ class PhaseSpaceGenerator(object):
 
     def cal_max_weight(self):
         if len(self.mass_range) == 0:
-            pass
+            return self.m_wtMax  # two-body decay: no free mass, nothing to search
 
         def f(x):
             return float(-self.get_weight(x))
